@@ -29,6 +29,11 @@ from vf.tagged import Obj
 def _attrs(a):
     out = {}
     for k, v in (a or {}).items():
+        if k == 'pa_soap11':
+            # protocol-specific attribute overrides, keyed by the protocol class (not expressible in JSON)
+            from spyne.protocol.soap import Soap11
+            out['prot_attrs'] = {Soap11: dict(v)}
+            continue
         if v == 'unbounded':
             v = decimal.Decimal('inf')
         else:
